@@ -231,7 +231,7 @@ def number_value(x, p):
     v = tok.value
     num = 0
     for k in range(ni + nf):
-        num = num * base + R.hexval(digs[k])
+        num = num * base + hx.narrow(x, R.hexval(digs[k]), 0, base - 1)
     den = base ** nf
     x.check('numeric value = sum of digit * base^position',
             hx.rat_eq(v, num, den))
@@ -276,8 +276,9 @@ HARNESSES = [
                    {'base': 16, 'ni': 1, 'nf': 0},
                    {'base': 16, 'ni': 0, 'nf': 1},
                    {'base': 2, 'ni': 0, 'nf': 2}],
-            thorough=[{'base': 16, 'ni': a, 'nf': b} for a in (0, 1, 2, 4)
-                      for b in (0, 1, 4) if a + b] +
-                     [{'base': 2, 'ni': a, 'nf': b} for a in (0, 1, 8)
-                      for b in (0, 1, 8) if a + b]),
+            thorough=[{'base': 16, 'ni': a, 'nf': b} for a, b in (
+                (1, 0), (2, 0), (4, 0), (1, 1), (2, 2), (3, 1), (0, 1),
+                (0, 3))] +
+                     [{'base': 2, 'ni': a, 'nf': b} for a, b in (
+                         (1, 0), (8, 0), (1, 1), (8, 8), (0, 1), (0, 8))]),
 ]
